@@ -567,14 +567,35 @@ def gen_class(ctx, tg, parent_list, outer_access, depth=0, anon_ok=True):
         tn = T.PQName([T.AnonymousName(ctx.anon)], classkey=key)
     else:
         tn = T.PQName([T.NameSpecifier(name)], classkey=key)
-    decl = T.ClassDecl(tn, bases, final=final, access=outer_access)
+    # class template specializations (the class's own name carries template arguments): constructors,
+    # destructors and access tracking must work exactly as for a plain name
+    head = ""
+    name_txt = name
+    tmpl = None
+    specialized = (not anonymous) and depth == 0 and key != "union" and r.random() < 0.15
+    if specialized:
+        ctx.form("class_specialization")
+        kind = r.choice(["full", "partial_ptr", "partial_val"])
+        if kind == "full":
+            head, tmpl = "template <> ", T.TemplateDecl([])
+            args, name_txt = [T.TemplateArgument(T.Type(fund("int")))], "%s<int>" % name
+        elif kind == "partial_ptr":
+            head, tmpl = "template <typename T> ", T.TemplateDecl([T.TemplateTypeParam("typename", "T")])
+            args, name_txt = [T.TemplateArgument(T.Pointer(T.Type(pq_name("T"))))], "%s<T*>" % name
+        else:
+            head, tmpl = "template <typename T> ", T.TemplateDecl([T.TemplateTypeParam("typename", "T")])
+            args, name_txt = [T.TemplateArgument(T.Type(pq_name("T"))), T.TemplateArgument(value("3"))], "%s<T, 3>" % name
+        tn = T.PQName([T.NameSpecifier(name, T.TemplateSpecialization(args))], classkey=key)
+    decl = T.ClassDecl(tn, bases, template=tmpl, final=final, access=outer_access)
     scope = S.ClassScope(decl)
+    scope._no_trailing = specialized
     parent_list.append(scope)
-    lines = ["%s%s%s%s {" % (key, (" " + name) if name else "", " final" if final else "", bases_txt)]
+    lines = ["%s%s%s%s%s {" % (head, key, (" " + name_txt) if name else "", " final" if final else "", bases_txt)]
     access = default_access
     n = r.randint(0, 7)
-    for _ in range(n):
-        k = r.random()
+    forced = [0.60, 0.60, 0.60] if specialized else []   # special members in every specialized class
+    for _ in range(n + len(forced)):
+        k = forced.pop() if forced else r.random()
         if k < 0.18:
             a = r.choice(["public", "protected", "private"])
             access = a
@@ -706,7 +727,7 @@ def gen_class_program(rng):
     for _ in range(rng.randint(1, 3)):
         cl, scope, tn = gen_class(ctx, tg, data.namespace.classes, None, 0, anon_ok=False)
         k = rng.random()
-        if k < 0.75:
+        if k < 0.75 or getattr(scope, "_no_trailing", False):
             cl[-1] += ";"
         else:
             nm = ctx.name("g")
